@@ -16,9 +16,10 @@ VARIABLES l,      \* next trace line
           em,     \* emitted rows in Emit order: [ts, g, v, late, wmAt, at, fut]
           maxTs,  \* largest (non-future-garbage) timestamp seen
           dl,     \* delivered result rows: [ws, g, ids, at]
+          pwm,    \* watermark of the last COMPLETED trigger pass logged so far (processed watermark)
           dead,   \* current trace already rejected
           used    \* deviations used in the current trace
-vars == <<l, cfg, em, maxTs, dl, dead, used>>
+vars == <<l, cfg, em, maxTs, dl, pwm, dead, used>>
 
 Step(k)  == IF cfg.kind = "sliding" THEN cfg.slide ELSE cfg.size
 AlignTo(t, k) == (t \div k) * k
@@ -54,12 +55,17 @@ RowCode(r) ==
   ELSE LET prev == PrevOf(r.ws, r.g) IN
        IF prev = {} THEN
             \* first result of (interval, group): if the interval was already delivered, its rows are late ones
-            IF WinSeen(r.ws) /\ cfg.al = 0 THEN "interval_reported_twice"
+            IF ~WinSeen(r.ws) THEN ""
+            ELSE IF cfg.al = 0 THEN "interval_reported_twice"
+            ELSE IF \E id \in SeqSet(r.ids) : ~em[id].late THEN "redelivery_added_ontime_row"
+            ELSE IF \E id \in SeqSet(r.ids) : r.we + cfg.al <= em[id].pwmAt THEN "late_row_absorbed_after_allowance"
             ELSE ""
        ELSE IF cfg.al = 0 THEN "interval_reported_twice"
        ELSE LET last == dl[CHOOSE i \in prev : \A j \in prev : j <= i] IN
             IF ~(SeqSet(last.ids) \subseteq SeqSet(r.ids)) THEN "redelivery_lost_rows"
             ELSE IF \E id \in SeqSet(r.ids) \ SeqSet(last.ids) : ~em[id].late THEN "redelivery_added_ontime_row"
+            \* C02(d): a trigger pass with watermark >= end + AL had completed before the row was emitted: window closed
+            ELSE IF \E id \in SeqSet(r.ids) \ SeqSet(last.ids) : r.we + cfg.al <= em[id].pwmAt THEN "late_row_absorbed_after_allowance"
             ELSE ""
 
 \* tumbling: a row may be counted in one interval only (across results)
@@ -80,6 +86,16 @@ DeliverCode(e) ==
   ELSE IF \E i \in 1..Len(e.rows) : e.rows[i].ws # e.rows[1].ws \/ e.rows[i].we # e.rows[1].we THEN "mixed_intervals_in_batch"
   ELSE IF cfg.kind = "sliding" /\ cfg.al = 0 /\ \E i \in 1..Len(dl) : dl[i].ws > e.rows[1].ws THEN "first_firings_out_of_order"
   ELSE RowsCode(e.rows, 1)
+
+\* shape of the known deviation: every row of the batch that re-delivers fewer rows than before lost only LATE rows
+OvertakeShape(e) ==
+  /\ cfg.kind = "tumbling" /\ cfg.al > 0
+  /\ \A k \in 1..Len(e.rows) :
+       LET r == e.rows[k]  prev == PrevOf(r.ws, r.g) IN
+       prev # {} =>
+         LET last == dl[CHOOSE i \in prev : \A j \in prev : j <= i] IN
+         /\ SeqSet(r.ids) \subseteq SeqSet(last.ids) \/ SeqSet(last.ids) \subseteq SeqSet(r.ids)
+         /\ \A id \in SeqSet(last.ids) \ SeqSet(r.ids) : em[id].late
 
 \* ------------------------------------------------------------- quiescence --
 OnTime == {id \in 1..Len(em) : ~em[id].late /\ em[id].fut = 0}
@@ -111,39 +127,42 @@ QuiesceCode ==
 Reject(code) == /\ PrintT(<<"REJECT", cfg.tr, l, code>>) /\ dead' = TRUE
 UseDev(d)    == /\ PrintT(<<"DEV", cfg.tr, l, d>>) /\ used' = used \cup {d}
 
-Init == /\ l = 1 /\ cfg = [tr |-> -1] /\ em = <<>> /\ maxTs = -1 /\ dl = <<>> /\ dead = FALSE /\ used = {}
+Init == /\ l = 1 /\ cfg = [tr |-> -1] /\ em = <<>> /\ maxTs = -1 /\ dl = <<>> /\ pwm = -1000000 /\ dead = FALSE /\ used = {}
 
 Next ==
   /\ l <= Len(Trace)
   /\ l' = l + 1
   /\ LET e == Trace[l] IN
      IF e.e = "reset" THEN
-        /\ cfg' = e /\ em' = <<>> /\ maxTs' = -1 /\ dl' = <<>> /\ dead' = FALSE /\ used' = {}
-     ELSE IF dead THEN UNCHANGED <<cfg, em, maxTs, dl, dead, used>>
+        /\ cfg' = e /\ em' = <<>> /\ maxTs' = -1 /\ dl' = <<>> /\ pwm' = -1000000 /\ dead' = FALSE /\ used' = {}
+     ELSE IF dead THEN UNCHANGED <<cfg, em, maxTs, dl, pwm, dead, used>>
      ELSE IF e.e = "add" THEN
         LET fut  == IF "fut" \in DOMAIN e THEN e.fut ELSE 0
             m1   == IF fut = 1 THEN maxTs ELSE IF e.ts > maxTs THEN e.ts ELSE maxTs
             late == fut = 0 /\ maxTs >= 0 /\ e.ts < m1 - cfg.moo
-        IN /\ em' = Append(em, [ts |-> e.ts, g |-> e.g, v |-> e.v, late |-> late, wmAt |-> m1 - cfg.moo, at |-> l, fut |-> fut])
+        IN /\ em' = Append(em, [ts |-> e.ts, g |-> e.g, v |-> e.v, late |-> late, wmAt |-> m1 - cfg.moo, pwmAt |-> pwm, at |-> l, fut |-> fut])
            /\ maxTs' = m1
            /\ IF e.id # Len(em) + 1 THEN Reject("harness_ids_not_sequential") ELSE UNCHANGED dead
-           /\ UNCHANGED <<cfg, dl, used>>
+           /\ UNCHANGED <<cfg, dl, pwm, used>>
      ELSE IF e.e = "deliver" THEN
         LET code == DeliverCode(e) IN
         IF code = "" THEN
             /\ dl' = dl \o [i \in 1..Len(e.rows) |-> [ws |-> e.rows[i].ws, g |-> e.rows[i].g, ids |-> e.rows[i].ids, at |-> l]]
-            /\ UNCHANGED <<cfg, em, maxTs, dead, used>>
-        ELSE IF code = "redelivery_lost_rows" /\ "LateUpdateOvertakes" \in Dev THEN
+            /\ UNCHANGED <<cfg, em, maxTs, pwm, dead, used>>
+        ELSE IF code = "redelivery_lost_rows" /\ "LateUpdateOvertakes" \in Dev /\ OvertakeShape(e) THEN
             \* known race: the late update of a window was enqueued before its first firing
             /\ UseDev("LateUpdateOvertakes")
             /\ dl' = dl \o [i \in 1..Len(e.rows) |-> [ws |-> e.rows[i].ws, g |-> e.rows[i].g, ids |-> e.rows[i].ids, at |-> l]]
-            /\ UNCHANGED <<cfg, em, maxTs, dead>>
-        ELSE Reject(code) /\ UNCHANGED <<cfg, em, maxTs, dl, used>>
+            /\ UNCHANGED <<cfg, em, maxTs, pwm, dead>>
+        ELSE Reject(code) /\ UNCHANGED <<cfg, em, maxTs, dl, pwm, used>>
      ELSE IF e.e = "quiesce" THEN
         LET code == QuiesceCode IN
         /\ IF code = "" THEN UNCHANGED <<dead, used>> ELSE Reject(code) /\ UNCHANGED used
-        /\ UNCHANGED <<cfg, em, maxTs, dl>>
-     ELSE UNCHANGED <<cfg, em, maxTs, dl, dead, used>>     \* trig / send / hook lines: schedule information only
+        /\ UNCHANGED <<cfg, em, maxTs, dl, pwm>>
+     ELSE IF e.e = "pwm" THEN
+        /\ pwm' = IF e.wm > pwm THEN e.wm ELSE pwm
+        /\ UNCHANGED <<cfg, em, maxTs, dl, dead, used>>
+     ELSE UNCHANGED <<cfg, em, maxTs, dl, pwm, dead, used>>     \* trig / send lines: schedule information only
 
 Spec == Init /\ [][Next]_vars
 Done == l = Len(Trace) + 1
